@@ -104,6 +104,8 @@ bool compare_results(const std::string& a, const std::string& b, std::string& wh
     }
     else tol = 5e-3 * std::max(1.0, std::fabs(x));                                           // sums of squares, m0, ratios (second-order effects of restarting from the adjusted coordinates)
     if (std::fabs(x - y) <= tol) continue;
+    // directions, angles and azimuths live on a circle of 400 gon: 0.0000 and 399.99999999 are neighbours
+    if ((under(p, "/direction/") || under(p, "/angle/") || under(p, "/azimuth/")) && std::fabs(std::fabs(x - y) - 400.0) <= tol) continue;
     why = fmt("%s: %s vs %s", p.c_str(), va[i].second.c_str(), vb[i].second.c_str());
     return false;
   }
@@ -195,6 +197,9 @@ bool same_points(std::vector<std::string>& a, std::vector<std::string>& b, doubl
   return true;
 }
 
+// In degrees mode the export writes angular values as dd-mm-ss.ssss: four decimals of an arc second, 5e-10 rad.
+bool g_degrees = false;
+
 bool same_survey(const std::vector<std::string>& a, const std::vector<std::string>& b, double rtol, std::string& why)
 {
   if (a.size() != b.size()) {
@@ -207,6 +212,8 @@ bool same_survey(const std::vector<std::string>& a, const std::vector<std::strin
     // observed values and covariances are written with 17 significant digits (angles go gon -> radian -> gon: one
     // unit in the last place per round); the parameters line is written with 8 digits by design
     double rt = a[i].compare(0, 11, "apriori_m0 ") == 0 ? std::max(rtol, 1e-7) : std::min(rtol, 1e-12);
+    bool angular_rec = a[i].find("DirectionE ") != std::string::npos || a[i].find("AngleE ") != std::string::npos || a[i].find("AzimuthE ") != std::string::npos;
+    if (g_degrees && angular_rec) rt = 1e-9;      // radians of magnitude <= 2*pi: absolute 1e-9 .. 6e-9
     if (a[i] == b[i] || gnet::tokens_equal(a[i], b[i], rt, &w)) continue;
     why = "record " + std::to_string(i) + " [" + a[i].substr(0, 160) + "] vs [" + b[i].substr(0, 160) + "] (" + w + ")";
     return false;
@@ -219,6 +226,13 @@ std::string slug_of(const std::string& why)
 {
   size_t c = why.find(':'); std::string p = why.substr(0, c == std::string::npos ? 40 : c);
   size_t sl = p.rfind('/'); std::string leaf = sl == std::string::npos ? p : p.substr(sl + 1);
+  if (why.find("items; first structural difference") != std::string::npos) {
+    size_t q = why.find(": ", why.find("difference at item")); std::string a = q == std::string::npos ? "" : why.substr(q + 2, 60);
+    size_t sp = a.find(' '); if (sp != std::string::npos) a = a.substr(0, sp);
+    size_t sl2 = a.rfind('/'); std::string r = "structure-" + (sl2 == std::string::npos ? a : a.substr(sl2 + 1));
+    for (auto& ch : r) if (!isalnum((unsigned char)ch) && ch != '-') ch = '-';
+    return r.substr(0, 48);
+  }
   std::string sec = p.find("coordinates") != std::string::npos ? "coordinates" : p.find("observations") != std::string::npos ? "observations" : p.find("items") != std::string::npos ? "structure" : "summary";
   std::string r; for (char ch : sec + "-" + leaf) r += (isalnum((unsigned char)ch) || ch == '-') ? ch : '-';
   return r.substr(0, 48);
@@ -343,6 +357,7 @@ Verdict RestartEngine::execute(const Plan& plan, EventLog& log, Stats& st)
   log.line("doc %016llx bytes %zu edits %d alg %s rounds %d extra [%s]", (unsigned long long)fnv(D), D.size(), nedit, alg.c_str(), rounds, extra.c_str());
 
   g_has_dh = D.find("_dh") != std::string::npos;
+  g_degrees = plan.get("angular", "").find("360") != std::string::npos || D.find("angles=\"360\"") != std::string::npos || D.find("angles='360'") != std::string::npos;
   st.shape = plan.get("name", "") + ":" + alg + ":";
   for (const Step& s : plan.steps) st.shape += s.op + ",";
   // is the original a document gama-local accepts at all?
@@ -355,11 +370,26 @@ Verdict RestartEngine::execute(const Plan& plan, EventLog& log, Stats& st)
     // round k: a new emulated process; rounds >= 1 read the previous export through a seeded chunk plan
     std::vector<size_t> lens;
     if (k >= 1) { Rng g((uint64_t)plan.geti("chunkseed", 1) * 131 + k); size_t left = input.size(); int n = (int)g.range(0, 12); for (int i = 0; i < n && left > 1; i++) { size_t l = (size_t)g.range(1, (long long)std::max<size_t>(2, left / 2)); lens.push_back(l); left -= l; } }
-    std::vector<std::string> args = {"-", "--algorithm", alg, "--export", "@F0", "--xml", "@F1"};
-    std::istringstream ex(k == 0 ? extra : plan.get("extra_later", "")); std::string tok; while (ex >> tok) args.push_back(tok);
+    // gama-local switches the network to gons before it writes the XML results, and it writes them BEFORE the export:
+    // with --xml in the same process every export is made in gons.  A third of the histories therefore export from
+    // a process without --xml (text output only, optionally --angular 360) and take the results from a sibling
+    // process on the same input.
+    bool noxml = plan.geti("noxml", 0) != 0;
+    std::vector<std::string> args = {"-", "--algorithm", alg, "--export", "@F0"};
+    if (noxml) { args.push_back("--text"); args.push_back("@F1"); } else { args.push_back("--xml"); args.push_back("@F1"); }
+    std::vector<std::string> ang; { std::istringstream as(plan.get("angular", "")); std::string t; while (as >> t) ang.push_back(t); }
+    if (k == 0) for (auto& t : ang) args.push_back(t);
+    // (the sibling process must see the same options, so a history without --xml carries no unrelated extras)
+    std::istringstream ex(k == 0 ? extra : plan.get("extra_later", "")); std::string tok; while (ex >> tok) if (!noxml) args.push_back(tok);
     procemu::Result R = procemu::run_gama_local(args, input, lens, false);
     st.add("processes"); st.add("rounds"); st.add("bytes_delivered", (long long)R.delivered); st.add("chunks", (long long)lens.size() + 1);
     std::string E = R.files.size() > 0 ? R.files[0] : "", X = R.files.size() > 1 ? R.files[1] : "";
+    if (noxml) {
+      std::vector<std::string> a2 = {"-", "--algorithm", alg, "--xml", "@F0"};
+      procemu::Result R2 = procemu::run_gama_local(a2, input, {}, false); st.add("processes");
+      X = R2.files.size() > 0 ? R2.files[0] : "";
+      if (R2.exit_code != 0 && R.exit_code == 0) R.exit_code = R2.exit_code;
+    }
     std::string cat; { size_t p = X.find("<error category=\""); if (p != std::string::npos) cat = X.substr(p + 17, X.find('"', p + 17) - p - 17); }
     if (const char* dd = getenv("VERIF_DUMP_DIR")) { write_file(fmt("%s/in%d.gkf", dd, k), input); write_file(fmt("%s/E%d.gkf", dd, k), E); write_file(fmt("%s/R%d.xml", dd, k), X); }   // debugging aid
     log.line("round %d exit=%d error=%s export=%016llx(%zu) result=%016llx(%zu)", k, R.exit_code, cat.c_str(), (unsigned long long)fnv(E), E.size(), (unsigned long long)fnv(X), X.size());
@@ -443,6 +473,7 @@ Plan RestartEngine::generate(uint64_t seed, uint64_t, const std::string&)
   if (g.chance(1, 8)) later += " --language fr";
   if (g.chance(1, 5)) { extra += " --cov-band 1"; later += " --cov-band 1"; }
   p.set("extra", extra); p.set("extra_later", later);
+  if (g.chance(1, 3)) { p.seti("noxml", 1); if (g.chance(1, 2)) p.set("angular", "--angular 360"); else if (g.chance(1, 4)) p.set("angular", "--angular 400"); }
   int ne = g.chance(1, 3) ? 0 : (int)g.range(1, 4);
   static const char* W[] = {"dh", "dh", "adh", "ext", "dist", "status", "noise", "prec", "prec", "ids"};
   for (int i = 0; i < ne; i++) { Step s; s.op = W[g.below(10)]; s.a = {(long long)g.below(1000), (long long)g.below(1000), (long long)g.below(1000)}; p.steps.push_back(s); }
@@ -454,6 +485,7 @@ std::vector<Plan> RestartEngine::simplify(const Plan& p)
   std::vector<Plan> out;
   if (p.geti("refill", 0)) { Plan c = p; c.seti("refill", 0); out.push_back(c); }
   if (!p.get("extra").empty() || !p.get("extra_later").empty()) { Plan c = p; c.set("extra", ""); c.set("extra_later", ""); out.push_back(c); }
+  if (p.geti("noxml", 0)) { Plan c = p; c.seti("noxml", 0); c.set("angular", ""); out.push_back(c); }
   if (p.geti("rounds", 3) > 1) { Plan c = p; c.seti("rounds", p.geti("rounds", 3) - 1); out.push_back(c); }
   // a smaller network: drop observation elements / clusters one at a time
   std::string D = from_hex(p.get("doc", ""));
